@@ -4,8 +4,6 @@
 
 package fd
 
-import "gonum.org/v1/gonum/floats"
-
 // Gradient estimates the gradient of the multivariate function f at the
 // location x. If dst is not nil, the result will be stored in-place into dst
 // and returned, otherwise a new slice will be allocated first. Finite
@@ -134,7 +132,11 @@ func Gradient(dst []float64, f func([]float64) float64, x []float64, settings *S
 		run := <-ansChan
 		dst[run.idx] += run.pt.Coeff * run.result
 	}
-	floats.Scale(1/step, dst)
+	// Divide as the serial path does: multiplying by the
+	// reciprocal rounds differently when 1/step is not exact.
+	for i := range dst {
+		dst[i] /= step
+	}
 	return dst
 }
 
